@@ -136,6 +136,67 @@ def check_pool_break(ctx, num=4):
                    construct="early exit of the job loop", detail=f"facts at the exit: {sorted(norm.show(x) for x in fs)[:8]}")
 
 
+def check_pool_queue_fifo(ctx, num=3):
+    """priority-pool: "first container in arrival order" rests on the queues staying in arrival order.  A job that was taken from a queue (scan
+    variable, pop, popleft, index) goes back only to the head; the tail is for work that is new in this round; queues are never rotated or sorted."""
+    P = ctx.P
+    f = sched.scheduler(P, "priority-pool")
+    s_p = f.params()[0]
+    qattrs = set()
+    for n in own_nodes(f.node):
+        if isinstance(n, ast.Attribute) and norm.is_name(n.value, s_p) and n.attr.endswith("_jobs"):
+            qattrs.add(norm.U(n))
+    qnames = set()
+    changed = True
+    while changed:
+        changed = False
+        for n in own_nodes(f.node):
+            if isinstance(n, ast.For) and isinstance(n.target, ast.Name) and n.target.id not in qnames:
+                it = n.iter
+                src = {norm.U(x) for x in ast.walk(it) if isinstance(x, (ast.Attribute, ast.Name))}
+                tabs = {t.targets[0].id for t in own_nodes(f.node) if isinstance(t, ast.Assign) and isinstance(t.targets[0], ast.Name) and isinstance(t.value, (ast.Dict, ast.List, ast.Tuple))
+                        and any(norm.U(e) in qattrs for e in ast.walk(t.value) if isinstance(e, ast.Attribute))}
+                if src & tabs or (isinstance(it, (ast.List, ast.Tuple)) and any(norm.U(e) in qattrs for e in it.elts)):
+                    qnames.add(n.target.id)
+                    changed = True
+    isq = lambda e: norm.U(e) in qattrs or (isinstance(e, ast.Name) and e.id in qnames)
+    g = cfg_of(f, subst_env=False)
+    taken = {}
+    for n in own_nodes(f.node):
+        if isinstance(n, ast.For) and isinstance(n.target, ast.Name) and any(isq(x) for x in ast.walk(n.iter)):
+            if n.target.id not in qnames:
+                taken.setdefault(n.target.id, []).append(n)
+        if isinstance(n, ast.Assign) and len(n.targets) == 1 and isinstance(n.targets[0], ast.Name):
+            v = n.value
+            if (isinstance(v, ast.Call) and isinstance(v.func, ast.Attribute) and v.func.attr in ("pop", "popleft") and isq(v.func.value)) or \
+               (isinstance(v, ast.Subscript) and isq(v.value)):
+                taken.setdefault(n.targets[0].id, []).append(n)
+    sites = 0
+    for c in own_nodes(f.node):
+        if not (isinstance(c, ast.Call) and isinstance(c.func, ast.Attribute) and isq(c.func.value)):
+            continue
+        m = c.func.attr
+        sites += 1
+        if m in ("rotate", "reverse", "sort"):
+            ctx.ob(num, "K1", "[priority-pool] a waiting queue is never rotated, reversed or sorted: its order is the arrival order", False, f, c, construct=f"{norm.U(c.func)}(..)", detail=stmt_text(c))
+            continue
+        back = None
+        if m in ("append", "extend") and c.args:
+            back = c.args[0]
+        elif m == "insert" and len(c.args) == 2 and not (isinstance(c.args[0], ast.Constant) and c.args[0].value == 0):
+            back = c.args[1]
+        if back is None:
+            continue
+        names = {}
+        for nm in sorted({x.id for x in ast.walk(back) if isinstance(x, ast.Name)} & set(taken)):
+            for d in sched.reaching_defs(f, g, sched.stmt_of(c), nm):
+                if any(d is t for t in taken[nm]):
+                    names[nm] = d
+        ctx.ob(num, "K1", "[priority-pool] what is put at the tail of a waiting queue is new in this round; a job taken from a queue is not sent to the back behind later arrivals",
+               not names, f, c, construct=f"{norm.U(c.func)}(..)", detail=f"`{stmt_text(c)}`" + (f": `{sorted(names)[0]}` was taken from a queue at L{names[sorted(names)[0]].lineno}" if names else ": argument not taken from a queue"))
+    ctx.ob(num, "K5", "[priority-pool] the waiting queues and the calls on them were found", bool(qattrs) and sites >= 3, f, f.node, construct="queue call sites", detail=f"queues {sorted(qattrs)}, aliases {sorted(qnames)}, {sites} call site(s)")
+
+
 def check_retry_record(ctx, f, num=4):
     """A waiting job is sized - and, when the doubled size no longer fits, dropped - by the retry record attached to it.  The record of a job
     built for arriving work must be the one registered for the job's own operators: `table.get(<first operator of the job's ops>.id)`.
@@ -570,3 +631,4 @@ def run(ctx):
     check_retry_record(ctx, f, 4)
     sched.ob_wrapper_passes_through(ctx, 3)      # "first container in arrival order": arrivals reach the policy in the tick and order in which they came
     check_pool_break(ctx)
+    check_pool_queue_fifo(ctx)
